@@ -367,7 +367,10 @@ def recvDone (σ : St) (t : Nat) (r : Res) (j : Nat) : St :=
       match r with
       | .okv v => if x.outer = .futRecvView || (σ.hs x.g).fut then (σ.setTh t fun y => { y with v := v }).goto t (.nf true 5) else σ.goto t (.ret (.okv v))
       | .disc => if x.outer = .futRecvView || (σ.hs x.g).fut then (σ.setTh t fun y => { y with v := 0 }).goto t (.nf true 7) else σ.goto t (.ret .disc)
-      | _ => σ.goto t (.w0 j)
+      | _ =>
+        -- the blocking `recv` of a futures receiver wakes the senders before it waits (F17; as `poll` does)
+        if x.outer = Outer.recv && (σ.hs x.g).fut then (σ.setTh t fun y => { y with aux := j }).goto t (.nf true 12)
+        else σ.goto t (.w0 j)
   | .poll _ =>
       match r with
       | .okv v => (σ.setTh t fun y => { y with v := v }).goto t (.nf true 4)
